@@ -46,7 +46,7 @@ ASSUMPTIONS = [
 ENV = {"NUMBA_BOUNDSCHECK": "1"}
 TIMEOUT = {"quick": 1200, "thorough": 7200}
 
-QUICK_MODELS = M.NUC_REV + M.NUC_NS + ["MG94HKY", "CNFGTR", "GY94", "JTT92", "DINUC_conditional"]
+QUICK_MODELS = M.NUC_REV + M.NUC_NS + ["MG94HKY", "CNFGTR", "GY94", "JTT92", "DINUC_conditional", "DINUCGTR_monomer", "DINUCGN_tuple"]
 ALL_MODELS = M.NUC_REV + M.NUC_NS + M.CODON + M.PROTEIN + M.DINUC
 
 
